@@ -458,6 +458,55 @@ Definition unpack_last_name (rd : bytes) : res bytes :=
   do sr <- unpack_name rd ;;
   match snd sr with [] => Ok (fst sr) | _ => Err (wd "rdlength") end.
 
+(* Types the tunnel never uses but the DNS library knows (c10raw feeds NS, SOA, OPT and SPF records to the client):
+   only whether their rdata unpacks matters, the record itself is ignored by UnwrapDnsResponse. *)
+Definition unpack_soa (rd : bytes) : res unit :=
+  do sr <- unpack_name rd ;;
+  match snd sr with
+  | [] => Ok tt
+  | r1 =>
+    do sr2 <- unpack_name r1 ;;
+    (* Serial, Refresh, Retry, Expire, Minttl: the rdata may end after any of them *)
+    let n := length (snd sr2) in
+    if (Nat.eqb (n mod 4) 0) && (n <=? 20)%nat then Ok tt else Err (wd "soa")
+  end.
+
+(* EDNS0 options whose unpack can fail: LLQ (1), UL (2), SUBNET (8), EXPIRE (9) *)
+Definition opt_ok (code : N) (b : bytes) : bool :=
+  if code =? 1 then (18 <=? length b)%nat
+  else if code =? 2 then Nat.eqb (length b) 4 || Nat.eqb (length b) 8
+  else if code =? 8 then
+    match b with
+    | f1 :: f0 :: mask :: scope :: _ =>
+      let fam := 256 * f1 + f0 in
+      if fam =? 0 then mask =? 0
+      else if fam =? 1 then (mask <=? 32) && (scope <=? 32)
+      else if fam =? 2 then (mask <=? 128) && (scope <=? 128)
+      else false
+    | _ => false
+    end
+  else if code =? 9 then Nat.eqb (length b) 0 || (4 <=? length b)%nat
+  else true.
+
+(* unpackDataOpt *)
+Fixpoint unpack_opt (fuel : nat) (rd : bytes) : res unit :=
+  match fuel with
+  | O => Err (wd "opt")
+  | S f =>
+    match rd with
+    | c1 :: c0 :: l1 :: l0 :: r =>
+      let len := N.to_nat (256 * l1 + l0) in
+      if (length r <? len)%nat then Err (wd "opt")
+      else if opt_ok (256 * c1 + c0) (firstn len r) then
+        match skipn len r with
+        | [] => Ok tt
+        | r' => unpack_opt f r'
+        end
+      else Err (wd "opt")
+    | _ => Err (wd "opt")
+    end
+  end.
+
 (* UnpackRRWithHeader: an empty rdata leaves the freshly made record untouched *)
 Definition unpack_rr (x : N * bytes) : res rr :=
   let '(t, rd) := x in
@@ -501,6 +550,10 @@ Definition unpack_rr (x : N * bytes) : res rr :=
     else if t =? 5 then do n <- unpack_last_name rd ;; Ok (RRCname n)
     else if t =? 28 then (if Nat.eqb (length rd) 16 then Ok (RRAAAA rd) else Err (wd "aaaa"))
     else if t =? 1 then (if Nat.eqb (length rd) 4 then Ok (RRA rd) else Err (wd "a"))
+    else if t =? 2 then do n <- unpack_last_name rd ;; Ok (RROther t)
+    else if t =? 6 then do _u <- unpack_soa rd ;; Ok (RROther t)
+    else if t =? 41 then do _u <- unpack_opt (length rd) rd ;; Ok (RROther t)
+    else if t =? 99 then do l <- unpack_txt (length rd) rd ;; Ok (RROther t)
     else Ok (RROther t)
   end.
 
@@ -513,26 +566,24 @@ Definition unpack (w : wire) : res msg :=
 (* ------------------------------------------------------------------------------------------------ *)
 (* TypePriority and UnwrapDnsResponse *)
 
-Definition SITE_PRIO : bytes := wd "util.TypePriority".
-Definition SITE_UNWRAP : bytes := wd "util.UnwrapDnsResponse".
-
 Definition tag_prio (base : Z) (c0 c1 : N) : Z :=
   u32z (base + u32z (b32_to_int c0 + b32_to_int c1 * 32)).
 
+(* a record too short to carry its order tag (and any type the tunnel does not use) sorts last, with priority 90000 *)
 Definition type_priority (r : rr) : res Z :=
   match r with
-  | RRNull d => match d with a :: b :: _ => Ok (10000 + Z.of_N (rd_le16 a b))%Z | _ => Panic SITE_PRIO end
-  | RRPrivate d => match d with a :: b :: _ => Ok (20000 + Z.of_N (rd_le16 a b))%Z | _ => Panic SITE_PRIO end
+  | RRNull d => match d with a :: b :: _ => Ok (10000 + Z.of_N (rd_le16 a b))%Z | _ => Ok 90000%Z end
+  | RRPrivate d => match d with a :: b :: _ => Ok (20000 + Z.of_N (rd_le16 a b))%Z | _ => Ok 90000%Z end
   | RRTxt l =>
     match l with
     | (c0 :: c1 :: _) :: _ => Ok (tag_prio 30000 c0 c1)
-    | _ => Panic SITE_PRIO
+    | _ => Ok 90000%Z
     end
   | RRMx p _ => Ok (40000 + Z.of_N p)%Z
   | RRSrv p _ _ _ => Ok (50000 + Z.of_N p)%Z
-  | RRCname t => match t with c0 :: c1 :: _ => Ok (tag_prio 60000 c0 c1) | _ => Panic SITE_PRIO end
-  | RRAAAA ip => match ip with a :: b :: _ => Ok (70000 + Z.of_N (rd_le16 a b))%Z | _ => Panic SITE_PRIO end
-  | RRA ip => match ip with a :: _ => Ok (80000 + Z.of_N a)%Z | _ => Panic SITE_PRIO end
+  | RRCname t => match t with c0 :: c1 :: _ => Ok (tag_prio 60000 c0 c1) | _ => Ok 90000%Z end
+  | RRAAAA ip => match ip with a :: b :: _ => Ok (70000 + Z.of_N (rd_le16 a b))%Z | _ => Ok 90000%Z end
+  | RRA ip => match ip with a :: _ => Ok (80000 + Z.of_N a)%Z | _ => Ok 90000%Z end
   | RROther _ => Ok 90000%Z
   end.
 
@@ -545,18 +596,30 @@ Fixpoint insert_by (x : Z * rr) (l : list (Z * rr)) : list (Z * rr) :=
   end.
 Definition sort_by (l : list (Z * rr)) : list (Z * rr) := fold_right insert_by [] l.
 
-Definition strip_domain (n dom : bytes) : res bytes := slice SITE_UNWRAP n 0 (zlen n - zlen dom - 2).
+(* the closure stripDomain of UnwrapDnsResponse: a name shorter than ".<domain>." holds no data *)
+Definition strip_domain (n dom : bytes) : option bytes :=
+  let l := (zlen n - zlen dom - 2)%Z in
+  if (l <? 0)%Z then None else Some (firstn (Z.to_nat l) n).
+
+(* if len(d) >= k { resp = append(resp, d[k:]...) }: a record shorter than its order tag is skipped *)
+Definition drop_tag (k : nat) (d : bytes) : bytes := if (k <=? length d)%nat then skipn k d else [].
+
+Definition target_piece (n dom : bytes) : bytes :=
+  match strip_domain n dom with
+  | Some x => unesc (undotify x)
+  | None => []
+  end.
 
 Definition piece (dom : bytes) (r : rr) : res bytes :=
   match r with
-  | RRNull d => slice SITE_UNWRAP d 2 (zlen d)
-  | RRPrivate d => slice SITE_UNWRAP d 2 (zlen d)
-  | RRTxt l => let u := unesc (concat l) in slice SITE_UNWRAP u 2 (zlen u)
-  | RRMx _ n => do x <- strip_domain n dom ;; Ok (unesc (undotify x))
-  | RRSrv _ _ _ n => do x <- strip_domain n dom ;; Ok (unesc (undotify x))
-  | RRCname t => do t2 <- slice SITE_UNWRAP t 2 (zlen t) ;; do x <- strip_domain t2 dom ;; Ok (unesc (undotify x))
-  | RRAAAA ip => slice SITE_UNWRAP ip 2 (zlen ip)
-  | RRA ip => slice SITE_UNWRAP ip 1 (zlen ip)
+  | RRNull d => Ok (drop_tag 2 d)
+  | RRPrivate d => Ok (drop_tag 2 d)
+  | RRTxt l => Ok (drop_tag 2 (unesc (concat l)))
+  | RRMx _ n => Ok (target_piece n dom)
+  | RRSrv _ _ _ n => Ok (target_piece n dom)
+  | RRCname t => if (length t <? 2)%nat then Ok [] else Ok (target_piece (skipn 2 t) dom)
+  | RRAAAA ip => Ok (drop_tag 2 ip)
+  | RRA ip => Ok (drop_tag 1 ip)
   | RROther _ => Ok []
   end.
 
@@ -632,30 +695,3 @@ Definition max_records (rt : rtype) : N :=
   end.
 
 Definition size_ok (rt : rtype) (dom p : bytes) : bool := N.of_nat (nrecords rt dom p) <=? max_records rt.
-
-(* the guard under which UnwrapDnsResponse does not panic (property C12): every record is long enough for its order
-   tag and, for the name-carrying types, for the domain suffix that is cut off; TypePriority is only evaluated when
-   there are at least two answers *)
-Definition prio_guard (r : rr) : bool :=
-  match r with
-  | RRNull d | RRPrivate d | RRAAAA d | RRCname d => (2 <=? length d)%nat
-  | RRTxt l => match l with (_ :: _ :: _) :: _ => true | _ => false end
-  | RRA ip => (1 <=? length ip)%nat
-  | RRMx _ _ | RRSrv _ _ _ _ | RROther _ => true
-  end.
-
-Definition piece_guard (dom : bytes) (r : rr) : bool :=
-  match r with
-  | RRNull d | RRPrivate d | RRAAAA d => (2 <=? length d)%nat
-  | RRTxt l => (2 <=? length (unesc (concat l)))%nat
-  | RRMx _ n | RRSrv _ _ _ n => (length dom + 2 <=? length n)%nat
-  | RRCname t => (length dom + 4 <=? length t)%nat
-  | RRA ip => (1 <=? length ip)%nat
-  | RROther _ => true
-  end.
-
-Definition unwrap_guard (m : msg) (dom : bytes) : bool :=
-  match m_answers m with
-  | _ :: _ :: _ => forallb prio_guard (m_answers m)
-  | _ => true
-  end && forallb (piece_guard dom) (m_answers m).
